@@ -81,6 +81,7 @@ def finish(prop: str, tier: str, coverage: dict, violations: list, t0: float,
     for eid, (e, n, sigs) in sorted(by_entry.items()):
         out_lines.append(f"KNOWN-FINDING: property={prop} {eid}: {e.get('what', '')} ({n} occurrences, {len(sigs)} signature(s))")
     replay_paths = []
+    unrepro = []
     for sig, v, n in new:
         d = os.path.join(REPLAY_DIR, prop)
         os.makedirs(d, exist_ok=True)
@@ -95,14 +96,33 @@ def finish(prop: str, tier: str, coverage: dict, violations: list, t0: float,
             r1 = replay_fn(rec)
             r2 = replay_fn(rec)
             if r1 != r2 or not r1:
-                print(f"HARNESS ERROR: replay of {path} is not reproducible: {r1} vs {r2}")
-                _write_evidence(prop, tier, coverage, violations, t0, assumptions, level, harness_error=True)
-                return 2
+                # Two replays in this (long-lived) process disagree.  Either the harness is not
+                # deterministic, or the library keeps state between calls at module / class
+                # level, so that the second replay starts from what the first one left behind.
+                # Decide by replaying the artefact twice more, each in a fresh interpreter: if both
+                # reproduce the recorded signature the failure is a deterministic function of the
+                # artefact alone and is reported; otherwise it is a harness error.
+                fresh = [_fresh_replay(path) for _ in range(2)]
+                if not all(fresh):
+                    # not a function of the artefact alone (e.g. it needed what an earlier case of
+                    # the same worker left behind): never reported as a violation by itself
+                    unrepro.append(f"replay of {path} is not reproducible: {r1} vs {r2}; fresh interpreters: {fresh}")
+                    continue
+                out_lines.append(f"  note: {path} reproduces in every fresh interpreter but not twice in one process "
+                                 f"({r1} then {r2}): the library carries state from one call to the next")
         replay_paths.append(path)
         out_lines.append(f"VIOLATION property={prop} replay={path}")
         out_lines.append(f"  signature: {sig}")
         out_lines.append(f"  detail: {str(v.get('detail'))[:300]}")
         exit_code = 1
+    if unrepro and exit_code == 0:
+        # nothing that was observed can be reproduced from its artefact: the harness, not the library
+        for u in unrepro:
+            print(f"HARNESS ERROR: {u}")
+        _write_evidence(prop, tier, coverage, violations, t0, assumptions, level, harness_error=True)
+        return 2
+    for u in unrepro:
+        out_lines.append(f"  note (not counted): {u}")
     coverage = dict(coverage)
     coverage["known_findings_met"] = [s for s, _, _ in met_known]
     coverage["new_violation_signatures"] = [s for s, _, _ in new]
@@ -113,6 +133,16 @@ def finish(prop: str, tier: str, coverage: dict, violations: list, t0: float,
           f"exhaustive={coverage.get('exhaustive')} new_violations={len(new)} known={len(met_known)} "
           f"wall={time.time() - t0:.1f}s")
     return exit_code
+
+
+def _fresh_replay(path):
+    """python -m mc.replay <path> in a new interpreter; True iff it reports the recorded signature"""
+    import subprocess
+    import sys
+    env = dict(os.environ)
+    r = subprocess.run([sys.executable, "-m", "mc.replay", path], cwd=os.path.dirname(os.path.dirname(os.path.abspath(__file__))),
+                       env=env, capture_output=True, text=True, timeout=600)
+    return r.returncode == 1 and "STILL FAILS" in r.stdout
 
 
 def _jd(o):
